@@ -136,12 +136,34 @@ def doDiscr (l : Line) : Option String := do
   let shift := (r.gridMin - a.gridMin) / a.cell
   some s!"ok lo={showRat r.lo} hi={showRat r.hi} cell={showRat r.cell} shift={showRat shift}"
 
+/-- `opadj mode=M m=.. n=.. off=.. fl=R fr=R gl=R gr=R data=…`: `ResizingOperator.adjoint` on one
+axis, range of length `m` with boundary-cell fractions `(fl, fr)`, domain of length `n` with
+`(gl, gr)`. -/
+def doOpAdj (l : Line) : Option String := do
+  let mode ← l.get? "mode" >>= parseMode
+  let m ← l.nat? "m"
+  let n ← l.nat? "n"
+  let off ← l.nat? "off"
+  let fl ← l.rat? "fl"
+  let fr ← l.rat? "fr"
+  let gl ← l.rat? "gl"
+  let gr ← l.rat? "gr"
+  let data ← l.rats? "data"
+  if data.length ≠ m then none
+  if gl = 0 || gr = 0 then none
+  let arr := data.toArray
+  let y : Nat → Rat := fun i => arr.getD i 0
+  match opAdjoint1d mode m n off (bdryFrac 1 m fl fr) (bdryFrac 1 n gl gr) y with
+  | .error e => some (showErr e)
+  | .ok r => some s!"ok r={showRatList ((List.range n).map r)}"
+
 def handle (l : Line) : Option String :=
   match l.op with
   | "resize" => doResize l
   | "resize-direct" => doResizeDirect l
   | "nppad" => doNpPad l
   | "discr" => doDiscr l
+  | "opadj" => doOpAdj l
   | _ => none
 
 def main : IO Unit := driverLoop handle
